@@ -18,6 +18,14 @@ The FORMULA lines evaluate the symbolic trees generated from distance.go / pured
   havf <x> <y> <real:hex32>                        -> ok | ulp=<d> model=<hex32>   haversineDistance; libm differs from Go's math: within `havUlp` = 1 float32 ulp (measured: 0)
   pqf <NS> <K> <L> <flat:words32> <x:words32> <codes:bytes>  -> hex32|nan   table build + look-up sum of DistanceFromFloat (distFn = the pure Go euclidean loop)
   pqp <NS> <K> <cdists:words32> <cx:bytes> <cy:bytes>        -> hex32|nan   look-up sum of DistanceFromPoint
+  pqt <e|d> <NS> <K> <L> <flat:words32>            -> words32 words32   the two tables `Fit()` leaves behind, computed by the GENERATED per-sub-vector
+                                                    bodies of Fit (copy of the centroids, fill of the centroid-distance table) from the centroids alone
+                                                    (sub-space i's k-means result = the i-th block of <flat>); distFn = the pure Go euclidean loop (e) /
+                                                    the dot distance over the pure Go dot loop (d), as generated; compared with the tables of a real Fit()
+  pqg <e|d> <NS> <K> <L> <flat> <cdists> <x:words32> <cx:bytes> <cy:bytes>  -> hex32|nan hex32|nan   both distances of a quantiser fitted like that
+                                                    (tables from the generated Fit bodies, <cdists> is NOT read): DistanceFromFloat(x)(cy), DistanceFromPoint(cx)(cy)
+  pqe <e|d> <NS> <K> <L> <flat:words32|-> <vector:words32>  -> bytes   the GENERATED encode (PQEncode.lean, float32 abstract) instantiated with hardware
+                                                    floats and the pure Go sub-vector distance as generated: the codes, first nearest centroid wins
   bqw <hamming|jaccard> <thr|-> <x> <y> (words32) <fk:hex32>  -> hex32 hex32   the two distance closures of the binary quantiser as
                                                     generated (which distance is used: bit distance of the encodings when a threshold is
                                                     set, else the float distance, whose real value is fk); encode / hamming / jaccard generated
@@ -28,6 +36,7 @@ import SemaModel.C20.Model
 import SemaModel.Generated.BitDist
 import SemaModel.Generated.Distance
 import SemaModel.Generated.PQDist
+import SemaModel.Generated.PQEncode
 import SemaModel.Generated.BQDist
 namespace Sema.C20
 open Sema Sema.Gen
@@ -84,6 +93,34 @@ def outF (o : Go.Out Go.FExpr) : String :=
   | .ret e => hexF32n e.eval
   | .outOfFuel => "out-of-fuel"
 
+/-- the sub-vector distance of a quantiser whose distFn was replaced by the pure Go loops: `e` euclidean, `d` dot -/
+def pureDist (tag : String) : List Go.FExpr → List Go.FExpr → Go.FExpr :=
+  if tag == "d" then Distance.dotProductDistance Distance.dotProductPureGo else Distance.squaredEuclideanDistancePureGo
+
+/-- a quantiser fitted by the generated bodies of `Fit()`: both tables start as `make` leaves them (zeros), then for every sub-space
+`i` (in order) the centroids of block `i` of `flat` are copied in and the centroid-distance block is filled -/
+def fitModel (tag : String) (ns k l : Nat) (flat : List (BitVec 32)) : Option PQDist.productQuantizer :=
+  let pq0 : PQDist.productQuantizer := ⟨⟨k, ns, 0⟩, pureDist tag, l, List.replicate (ns * k * k) (.lit 0), List.replicate (ns * k * l) (.lit 0)⟩
+  (List.range ns).foldl (fun (acc : Option PQDist.productQuantizer) i =>
+    match acc with
+    | none => none
+    | some pq =>
+      let km : PQDist.KMeans := ⟨(List.range k).map fun j => fvars ((flat.drop ((i * k + j) * l)).take l)⟩
+      match PQDist.pq_fitFlatCentroids (2 * k + 2) pq i km with
+      | .outOfFuel => none
+      | .ret pq1 =>
+        match PQDist.pq_fitCentroidDists (2 * k + 2) pq1 i km with
+        | .outOfFuel => none
+        | .ret pq2 => some pq2) (some pq0)
+
+def f32OfBits (b : BitVec 32) : Float32 := Float32.ofBits b.toNat.toUInt32
+def bitsOfF32 (f : Float32) : BitVec 32 := BitVec.ofNat 32 f.toBits.toNat
+/-- the pure Go sub-vector distance on hardware floats: the generated tree over the operands' bit patterns, evaluated -/
+def pureDistF (tag : String) (a b : List Float32) : Float32 := (pureDist tag (fvars (a.map bitsOfF32)) (fvars (b.map bitsOfF32))).eval
+def hexBytes (l : Bytes) : String := if l.isEmpty then "-" else String.join (l.map fun b => hexOfNat 2 b.toNat)
+
+def hexFs (l : List Go.FExpr) : String := if l.isEmpty then "-" else String.join (l.map fun e => hexF32 e.eval)
+
 def step (line : String) : String :=
   let bad := "bad-op"
   match line.trimAscii.toString.splitOn " " with
@@ -133,6 +170,28 @@ def step (line : String) : String :=
         let pq : PQDist.productQuantizer := ⟨⟨k, ns, 0⟩, fun _ _ => .lit 0, 0, fvars cd, []⟩
         outF (PQDist.pq_lookupFromPoint pq ⟨[], cx⟩ ⟨[], cy⟩)
       | _, _, _, _, _ => bad
+  | ["pqe", tag, ns, k, l, flat, v] => match ns.toNat?, k.toNat?, l.toNat?, words32? flat, words32? v with
+      | some ns, some k, some l, some flat, some v =>
+        let pq : PQEncode.productQuantizer Float32 := ⟨⟨k, ns, 0⟩, pureDistF tag, l, flat.map f32OfBits⟩
+        match PQEncode.productQuantizer_encode (f32OfBits 0x7f7fffff#32) pq (v.map f32OfBits) with
+        | .ret codes => hexBytes codes
+        | .outOfFuel => "out-of-fuel"
+      | _, _, _, _, _ => bad
+  | ["pqt", tag, ns, k, l, flat] => match ns.toNat?, k.toNat?, l.toNat?, words32? flat with
+      | some ns, some k, some l, some flat =>
+        match fitModel tag ns k l flat with
+        | some pq => s!"{hexFs pq.flatCentroids} {hexFs pq.centroidDists}"
+        | none => "out-of-fuel"
+      | _, _, _, _ => bad
+  | ["pqg", tag, ns, k, l, flat, _cd, x, cx, cy] => match ns.toNat?, k.toNat?, l.toNat?, words32? flat, words32? x, bytes8? cx, bytes8? cy with
+      | some ns, some k, some l, some flat, some x, some cx, some cy =>
+        match fitModel tag ns k l flat with
+        | some pq =>
+          match PQDist.pq_tableFromFloat pq (fvars x) with
+          | .ret table => s!"{outF (PQDist.pq_lookupFromFloat pq table ⟨[], cy⟩)} {outF (PQDist.pq_lookupFromPoint pq ⟨[], cx⟩ ⟨[], cy⟩)}"
+          | .outOfFuel => "out-of-fuel"
+        | none => "out-of-fuel"
+      | _, _, _, _, _, _, _ => bad
   | ["bqw", m, t, x, y, fk] => match words32? t, words32? x, words32? y, words32? fk with
       | some t, some x, some y, some [fk] =>
         let bit := if m == "hamming" then BitDist.hammingDistance else BitDist.jaccardDistance
@@ -147,6 +206,8 @@ def step (line : String) : String :=
   | "fdot" :: _ => "n/a"
   | "fl2" :: _ => "n/a"
   | "hav" :: _ => "n/a"
+  | "pqfit" :: _ => "n/a"
+  | "bqfit" :: _ => "n/a"
   | _ => bad
 
 end Sema.C20
